@@ -170,7 +170,11 @@ class Prop(c17.Prop):
     LEAN_MODULE = "TextxVerif.Props.C18"
     THEOREMS = ["Repo.C18_clean", "Repo.C18_survivors", "Repo.C18_repair",
                 "Repo.C18_str_name_admissible", "Repo.C18_entry_clean", "Repo.C18_entry_survivors",
-                "Repo.C18_entry_repair", "Repo.C18_preload_fail"]
+                "Repo.C18_entry_repair", "Repo.C18_preload_fail",
+                "Repo.C18_visible_iff", "Repo.C18_semantic_cause", "Repo.C18_repair_succeeds",
+                "Repo.C18_fail_then_repair", "Repo.C18_repair_succeeds_univ",
+                "Repo.C18_repair_succeeds_on", "Repo.C18_repair_succeeds_dec",
+                "Repo.C18_history_cache_stays", "Repo.C18_history_fail_step", "Repo.C18_preload_repair_succeeds"]
     QUICK_CASES = 260
     THOROUGH_CASES = 4000
     RULE = ("import graphs as in C17 (<=6 files, 6 providers, global repository on in 9 of 10 graphs); for each graph the "
